@@ -78,7 +78,7 @@ func TestC07(t *testing.T) {
 			d.Levels = append(d.Levels, gen.QeLevel{Date: gen.LevelDates[s.Intn(len(gen.LevelDates))], Isvsvn: uint32(isv), Status: rapid.SampledFrom([]string{"UpToDate", "UpToDate", "UpToDate", "SWHardeningNeeded", "ConfigurationNeeded", "ConfigurationAndSWHardeningNeeded", "OutOfDate", "OutOfDateConfigurationNeeded", "Revoked"}).Draw(t, "status")})
 		}
 		pert := rapid.SampledFrom([]string{"none", "none", "report-misc-bit", "report-attr-bit", "id-misc-bit", "id-attr-bit", "mask-misc-bit", "mask-attr-bit", "mrsigner-bit", "report-mrsigner-bit", "prodid", "report-prodid",
-			"misc-3", "misc-5", "miscmask-3", "miscmask-5", "attr-15", "attr-17", "attrmask-15", "attrmask-17", "mrsigner-31", "mrsigner-33", "upper-hex", "report-isvsvn", "mrsigner-prodid-boundary-shift", "mrsigner-prodid-boundary-shift", "number-out-of-range", "number-out-of-range", "report-attr-words-cancel", "report-attr-words-cancel"}).Draw(t, "perturb")
+			"misc-3", "misc-5", "miscmask-3", "miscmask-5", "attr-15", "attr-17", "attrmask-15", "attrmask-17", "mrsigner-31", "mrsigner-33", "upper-hex", "report-isvsvn", "mrsigner-prodid-boundary-shift", "mrsigner-prodid-boundary-shift", "number-out-of-range", "number-out-of-range", "report-attr-words-cancel", "report-attr-words-cancel", "attributes-and-mask-both-short", "attributes-and-mask-both-short", "miscselect-and-mask-both-short", "many-levels", "many-levels"}).Draw(t, "perturb")
 		switch pert {
 		case "report-misc-bit":
 			q.QeMiscSelect ^= 1 << uint(rapid.IntRange(0, 31).Draw(t, "bit"))
@@ -200,6 +200,38 @@ func TestC07(t *testing.T) {
 				q.QeAttributes[i*width+k] ^= x[k]
 				q.QeAttributes[j*width+k] ^= y[k]
 			}
+		case "attributes-and-mask-both-short":
+			// identity attributes and mask of the SAME length N < 16, agreeing with the report on those N bytes, while the
+			// report differs from what a full-length identity would ask for behind them: 16 bytes or nothing
+			n := rapid.SampledFrom([]int{0, 1, 8, 15}).Draw(t, "n")
+			d.Attributes, d.AttributesMask = d.Attributes[:n], d.AttributesMask[:n]
+		case "miscselect-and-mask-both-short":
+			n := rapid.SampledFrom([]int{0, 1, 3}).Draw(t, "n")
+			d.Miscselect, d.MiscselectMask = d.Miscselect[:n], d.MiscselectMask[:n]
+		case "many-levels":
+			// 255 .. 600 levels the report does not reach in front of the first one it reaches (or of none)
+			n := rapid.SampledFrom([]int{255, 256, 257, 300, 511, 512, 600}).Draw(t, "leading")
+			if q.QeIsvSvn > 60000 {
+				q.QeIsvSvn = 7
+			}
+			tail := d.Levels
+			d.Levels = nil
+			for i := 0; i < n; i++ {
+				st := "UpToDate"
+				if i > 0 && i != n%256 && s.Intn(3) == 0 {
+					st = "OutOfDate"
+				}
+				d.Levels = append(d.Levels, gen.QeLevel{Isvsvn: uint32(q.QeIsvSvn) + 1 + uint32(n-i), Status: st})
+			}
+			if rapid.Bool().Draw(t, "noneReached") {
+				tail = nil
+			}
+			for i := range tail {
+				if tail[i].Isvsvn > uint32(q.QeIsvSvn) {
+					tail[i].Isvsvn = uint32(q.QeIsvSvn)
+				}
+			}
+			d.Levels = append(d.Levels, tail...)
 		case "upper-hex":
 			d.UpperHex = true
 		case "report-isvsvn":
@@ -215,7 +247,10 @@ func TestC07(t *testing.T) {
 // while an unsigned, differently spelled sibling member carries a complete, matching identity. "The QE identity"
 // is the signed one: with the value missing the report cannot match / no level can be UpToDate, so the quote
 // must be rejected.
-func c07Omitted(t *rapid.T) {
+func c07Omitted(t *rapid.T) { c07OmittedMember(t, "") }
+
+// c07OmittedMember: forced != "" fixes the omitted member (used by C06 for the end date).
+func c07OmittedMember(t *rapid.T, forced string) {
 	w, _ := gen.DrawWorld(t, gen.WorldCfg{MaxAuth: 16, Simple: true, NoModule: true})
 	w.Build()
 	full := w.QeID.Render()
@@ -225,7 +260,10 @@ func c07Omitted(t *rapid.T) {
 	if err := dec.Decode(&m); err != nil {
 		gen.HarnessError(t, "own identity does not decode: %v", err)
 	}
-	drop := rapid.SampledFrom([]string{"mrsigner", "isvprodid", "miscselect", "miscselectMask", "attributes", "attributesMask", "tcbLevels", "level.tcbStatus", "level.tcbStatus"}).Draw(t, "omitted")
+	drop := rapid.SampledFrom([]string{"mrsigner", "isvprodid", "miscselect", "miscselectMask", "attributes", "attributesMask", "tcbLevels", "level.tcbStatus", "level.tcbStatus", "nextUpdate", "nextUpdate"}).Draw(t, "omitted")
+	if forced != "" {
+		drop = forced
+	}
 	if strings.HasPrefix(drop, "level.") {
 		for _, l := range m["tcbLevels"].([]any) {
 			delete(l.(map[string]any), strings.TrimPrefix(drop, "level."))
